@@ -145,7 +145,15 @@ func cmdExec() int {
 		return 2
 	}
 	var p vm.Plan
-	if err := json.Unmarshal(data, &p); err != nil {
+	var in execInput
+	if json.Unmarshal(data, &in) == nil && in.Plan != nil {
+		// a session: the plans of the prelude are executed first, in this process, for whatever
+		// process-wide state of the library they leave behind; only the last plan is judged
+		for _, q := range in.Prelude {
+			runPlan(q, false)
+		}
+		p = *in.Plan
+	} else if err := json.Unmarshal(data, &p); err != nil {
 		fmt.Fprintln(os.Stderr, "bad plan:", err)
 		return 2
 	}
@@ -158,10 +166,24 @@ func cmdExec() int {
 
 // isolated executes a plan in a fresh process. A dead process is turned into
 // a process-death violation carrying the panic's first library frame.
-func isolated(p *vm.Plan, trace bool) *vm.Result {
+func isolated(p *vm.Plan, trace bool) *vm.Result { return isolatedSeq(nil, p, trace) }
+
+// execInput is what "bsim exec" reads when earlier plans have to be executed in the same process.
+type execInput struct {
+	Prelude []*vm.Plan `json:"prelude"`
+	Plan    *vm.Plan   `json:"plan"`
+}
+
+// isolatedSeq executes the prelude plans and then p in one fresh process and returns p's result.
+func isolatedSeq(prelude []*vm.Plan, p *vm.Plan, trace bool) *vm.Result {
 	self, _ := os.Executable()
 	cmd := exec.Command(self, "exec")
-	cmd.Stdin = bytes.NewReader(p.JSON())
+	if len(prelude) == 0 {
+		cmd.Stdin = bytes.NewReader(p.JSON())
+	} else {
+		b, _ := json.Marshal(execInput{Prelude: prelude, Plan: p})
+		cmd.Stdin = bytes.NewReader(b)
+	}
 	pr, pw, _ := os.Pipe()
 	cmd.ExtraFiles = []*os.File{pw}
 	var stderr bytes.Buffer
@@ -177,13 +199,14 @@ func isolated(p *vm.Plan, trace bool) *vm.Result {
 	pw.Close()
 	done := make(chan []byte, 1)
 	go func() { b, _ := io.ReadAll(pr); done <- b }()
-	timer := time.AfterFunc(120*time.Second, func() { cmd.Process.Kill() })
+	limit := 120*time.Second + time.Duration(len(prelude))*200*time.Millisecond
+	timer := time.AfterFunc(limit, func() { cmd.Process.Kill() })
 	werr := cmd.Wait()
 	timedOut := !timer.Stop()
 	out := <-done
 	pr.Close()
 	if timedOut {
-		return &vm.Result{Internal: "watchdog: plan did not finish in 120 s"}
+		return &vm.Result{Internal: fmt.Sprintf("watchdog: plan did not finish in %v", limit)}
 	}
 	var res vm.Result
 	if len(out) > 0 && json.Unmarshal(bytes.TrimSpace(out), &res) == nil {
@@ -324,12 +347,15 @@ func cmdReplay(args []string) int {
 		fmt.Fprintln(os.Stderr, "bad replay file")
 		return 2
 	}
-	res := isolated(rf.Plan, true)
+	res := isolatedSeq(rf.Prelude, rf.Plan, true)
 	if res.Internal != "" {
 		fmt.Println("INTERNAL:", res.Internal)
 		return 2
 	}
 	fmt.Printf("replay of %s: property=%s seed=%d run=%d ops=%d steps=%d sched=%s\n", args[0], rf.Plan.Property, rf.Plan.Seed, rf.Plan.Run, len(rf.Plan.Ops), res.Steps, res.SchedHash)
+	if len(rf.Prelude) > 0 {
+		fmt.Printf("  (session replay: %d earlier plan(s) executed first in the same process)\n", len(rf.Prelude))
+	}
 	rc := 0
 	for _, v := range res.Violations {
 		fmt.Printf("  violation %s [%s]: %s\n    %s\n", v.Key(), v.Sig, strings.ReplaceAll(v.Detail, "\n", "\n    "), "")
@@ -354,6 +380,9 @@ type ReplayFile struct {
 	Tries     int          `json:"minimiser_runs"`
 	SchedHash string       `json:"sched_hash"`
 	Plan      *vm.Plan     `json:"plan"`
+	// Prelude: plans that have to be executed before Plan in the same process for the violation to
+	// appear (the library keeps process-wide state that an earlier plan left behind)
+	Prelude []*vm.Plan `json:"prelude,omitempty"`
 }
 
 // ---- worker
@@ -364,6 +393,7 @@ type wmsg struct {
 	V    *vm.Violation `json:"v,omitempty"`
 	Plan *vm.Plan      `json:"plan,omitempty"`
 	Run  int           `json:"run,omitempty"`
+	From int           `json:"from,omitempty"` // first run of the worker process that reports
 	Internal string    `json:"internal,omitempty"`
 }
 
@@ -484,7 +514,7 @@ func cmdWorker(args []string) int {
 			k := v.Key() + "|" + v.Sig
 			perKey[k]++
 			if perKey[k] <= 3 {
-				emit(wmsg{Type: "violation", V: &v, Plan: p, Run: p.Run})
+				emit(wmsg{Type: "violation", V: &v, Plan: p, Run: p.Run, From: from})
 			} else {
 				emit(wmsg{Type: "violation", V: &v, Run: p.Run})
 			}
@@ -544,6 +574,7 @@ func loadKnown() []Known {
 type found struct {
 	V     vm.Violation
 	Plan  *vm.Plan
+	From  int // first run of the worker process that executed Plan
 	Count int
 	Runs  []int
 }
@@ -638,7 +669,7 @@ func cmdCheck(args []string) int {
 							f.Runs = append(f.Runs, m.Run)
 						}
 						if f.Plan == nil && m.Plan != nil {
-							f.Plan = m.Plan
+							f.Plan, f.From = m.Plan, m.From
 						}
 					}
 				})
@@ -746,15 +777,17 @@ func cmdCheck(args []string) int {
 			rf.Run = f.Plan.Run
 			rf.Original = len(f.Plan.Ops)
 			// a hang costs the watchdog's 40 s per execution: such plans are reported unminimised
-			if minimised < 4 && !strings.Contains(f.V.Sig, "blocked forever") {
+			if minimised < 16 && !strings.Contains(f.V.Sig, "blocked forever") {
 				minimised++
 				pinSig := ""
 				if f.V.Invariant == "process-death" || f.V.Invariant == "panic" {
 					pinSig = f.V.Sig
 				}
-				// confirm in a fresh process first
+				// confirm in a fresh process first (every reported group up to 16; the first 4 are minimised)
 				r0 := isolated(f.Plan, false)
-				if minimise.Same(r0, f.V.Key(), pinSig) {
+				if minimise.Same(r0, f.V.Key(), pinSig) && minimised > 4 {
+					rf.SchedHash = r0.SchedHash
+				} else if minimise.Same(r0, f.V.Key(), pinSig) {
 					mp, tries := minimise.Minimise(f.Plan, f.V.Key(), pinSig, func(p *vm.Plan) *vm.Result { return isolated(p, false) }, 150)
 					r1 := isolated(mp, false)
 					if minimise.Same(r1, f.V.Key(), pinSig) {
@@ -766,6 +799,9 @@ func cmdCheck(args []string) int {
 							}
 						}
 					}
+				} else if pre := findPrelude(id, tier, seed, f, nw, pinSig); pre != nil {
+					rf.Prelude = pre
+					fmt.Printf("NOTE: violation %s needs state left behind by %d earlier plan(s) of the same process; the replay file is a session\n", k, len(pre))
 				} else {
 					fmt.Printf("WARNING: violation %s found by a worker did not reproduce in a fresh process; reporting the original plan\n", k)
 				}
@@ -786,6 +822,51 @@ func cmdCheck(args []string) int {
 	writeEvidence(spec, id, tier, seed, total, wall, nviol, nw)
 	fmt.Printf("done: %d evaluations (%d runs + %d sweep points), %d steps, %.1f s wall, %d violations\n", total.Evals, total.Runs, total.SubRuns, total.Steps, wall, nviol)
 	return rc
+}
+
+// findPrelude looks for earlier plans of the reporting worker process that have to run first, in the
+// same process, for the violation of f.Plan to appear: first one plan at a time (most recent first),
+// then the whole history of that process, halved while the violation persists.
+func findPrelude(id, tier string, seed int64, f *found, stride int, pinSig string) []*vm.Plan {
+	if f.Plan == nil || stride <= 0 || f.Plan.Note == "sweep" {
+		return nil
+	}
+	var runs []int
+	for r := f.From; r < f.Plan.Run; r += stride {
+		runs = append(runs, r)
+	}
+	if len(runs) == 0 {
+		return nil
+	}
+	gen := func(rs []int) []*vm.Plan {
+		ps := make([]*vm.Plan, len(rs))
+		for i, r := range rs {
+			ps[i] = props.Generate(id, seed, r, tier)
+		}
+		return ps
+	}
+	holds := func(rs []int) bool {
+		return minimise.Same(isolatedSeq(gen(rs), f.Plan, false), f.V.Key(), pinSig)
+	}
+	for i, tries := len(runs)-1, 0; i >= 0 && tries < 48; i, tries = i-1, tries+1 {
+		if holds(runs[i : i+1]) {
+			return gen(runs[i : i+1])
+		}
+	}
+	if !holds(runs) {
+		return nil
+	}
+	for tries := 0; len(runs) > 1 && tries < 40; tries++ {
+		h := len(runs) / 2
+		if holds(runs[h:]) {
+			runs = runs[h:]
+		} else if holds(runs[:h]) {
+			runs = runs[:h]
+		} else {
+			break
+		}
+	}
+	return gen(runs)
 }
 
 func planOps(p *vm.Plan) int {
